@@ -291,6 +291,24 @@ pub fn drive_extreme(s: &mut Session, rng: &mut Rng, runs: usize) {
     }
 }
 
+/// many sample rates (every integer rate 100..=2200 and seeded rates up to 192 kHz): construction,
+/// the fastest settings and a few samples each
+pub fn drive_rates(s: &mut Session, rng: &mut Rng, thorough: bool) {
+    let mut rates: Vec<u32> = (100..=2200).collect();
+    for _ in 0..(if thorough { 20000 } else { 2500 }) {
+        rates.push(rng.log_uniform(100.0, 192000.0) as u32);
+    }
+    for fs in rates {
+        s.start(fs);
+        let t = *rng.pick(&[0.0f32, 1e-9, 1.0 / fs as f32, 2.0 / fs as f32, 1.99 / fs as f32, 3.0 / fs as f32, 10.0, 0.01]);
+        s.set_time(t);
+        s.process(1.0);
+        s.process(1.0);
+        s.set_time(0.0);
+        s.process(-1.0);
+    }
+}
+
 pub fn rerun(lines: &[serde_json::Value], out: &mut Out) {
     let mut s = Session::new(out);
     for e in lines {
@@ -314,6 +332,7 @@ pub fn record(driver: &str, seed: u64, thorough: bool, out: &mut Out) -> Stats {
         "sched" => drive_sched(&mut s, &mut rng, if thorough { 3000 } else { 300 }),
         "deadband" => drive_deadband(&mut s, &mut rng, if thorough { 400 } else { 40 }),
         "extreme" => drive_extreme(&mut s, &mut rng, if thorough { 200 } else { 30 }),
+        "rates" => drive_rates(&mut s, &mut rng, thorough),
         _ => {
             eprintln!("unknown glide driver {}", driver);
             std::process::exit(2)
